@@ -4,6 +4,7 @@ import (
 	"bytes"
 	"fmt"
 	"runtime"
+	"strings"
 	"sync"
 	"sync/atomic"
 
@@ -193,8 +194,55 @@ func (c19) Check(ctx *core.Ctx, c *core.Case) {
 		b, r, _ := core.ParseCopy(dd)
 		seqFP[i] = core.Fingerprint(b, r, core.FPOpts{})
 	}
-	shared := bytes.Join(docs[:6], []byte("\n\n"))
+	// A document of per-round extremes: indentation widths, nesting depths and digit counts that
+	// no earlier round of this process has rendered, so that any grow-on-demand package-level
+	// table or pool is grown while several goroutines are inside the library (seeded change
+	// C19-j: a shared run of spaces grown from the read-only render path).
+	w := 17 + int(c.Index%211)
+	extremes := "<pre>\n" + strings.Repeat("\t", 5+w/4) + "</pre>\n\n<!--\n" + strings.Repeat(" ", w) + "x -->\n\n" +
+		"- <?p\n" + strings.Repeat(" ", w+2) + "?>\n\n" + strings.Repeat("> ", 3+w%40) + "deep\n\n" +
+		strings.Repeat(" ", 3) + strings.Repeat("1", 1+w%9) + ". item\n\n" + strings.Repeat("#", 1+w%6) + " h " + strings.Repeat("*", w%30) + "\n\n" +
+		"```" + strings.Repeat("`", w) + "\n" + strings.Repeat(" ", w) + "code\n```" + strings.Repeat("`", w) + "\n"
+	shared := bytes.Join(append(append([][]byte(nil), docs[:6]...), []byte(extremes)), []byte("\n\n"))
 	sBlocks, sRefs, _ := core.ParseCopy(shared)
+
+	// ---- phase B0 ("cold"): the shared tree is rendered, formatted and walked concurrently
+	// BEFORE anything has rendered it sequentially; the outputs are compared with the
+	// sequential ones further down.
+	type coldOut struct {
+		render, safe, format []byte
+		walk, acc            uint64
+	}
+	cold := make([]coldOut, 8)
+	{
+		var wg sync.WaitGroup
+		start := make(chan struct{})
+		for g := range cold {
+			g := g
+			wg.Add(1)
+			go func() {
+				defer wg.Done()
+				<-start
+				switch g % 4 {
+				case 0:
+					cold[g].render, _ = core.Render(sBlocks, sRefs, core.RenderCfg{})
+				case 1:
+					cold[g].safe = core.RenderSafe(sBlocks, sRefs)
+					cold[g].acc = accessorDigest(sBlocks)
+				case 2:
+					var bb bytes.Buffer
+					format.Format(&bb, sBlocks)
+					cold[g].format = bb.Bytes()
+				default:
+					cold[g].walk = walkDigest(sBlocks, true)
+					cold[g].render, _ = core.Render(sBlocks, sRefs, core.RenderCfg{})
+				}
+			}()
+		}
+		close(start)
+		wg.Wait()
+		ctx.Count("ops:cold-concurrent(first use of the tree)", int64(len(cold)))
+	}
 	treeFP := core.Fingerprint(sBlocks, sRefs, core.FPOpts{})
 	cfgs := allRenderConfigs()
 	for i := range cfgs {
@@ -226,6 +274,26 @@ func (c19) Check(ctx *core.Ctx, c *core.Case) {
 	var keys []string
 	for k := range sRefs {
 		keys = append(keys, k)
+	}
+
+	coldFailures := []string{}
+	{
+		seqDefault, _ := core.Render(sBlocks, sRefs, core.RenderCfg{})
+		seqSafe := core.RenderSafe(sBlocks, sRefs)
+		for g, co := range cold {
+			switch {
+			case co.render != nil && !bytes.Equal(co.render, seqDefault):
+				coldFailures = append(coldFailures, fmt.Sprintf("goroutine %d: Render", g))
+			case co.safe != nil && !bytes.Equal(co.safe, seqSafe):
+				coldFailures = append(coldFailures, fmt.Sprintf("goroutine %d: safe-mode Render", g))
+			case co.format != nil && !bytes.Equal(co.format, seqFormat.Bytes()):
+				coldFailures = append(coldFailures, fmt.Sprintf("goroutine %d: Format", g))
+			case co.walk != 0 && co.walk != seqWalk:
+				coldFailures = append(coldFailures, fmt.Sprintf("goroutine %d: Walk", g))
+			case co.acc != 0 && co.acc != seqAcc:
+				coldFailures = append(coldFailures, fmt.Sprintf("goroutine %d: accessors", g))
+			}
+		}
 	}
 
 	var running, maxRunning, overlapping, opsTotal int64
@@ -417,6 +485,9 @@ func (c19) Check(ctx *core.Ctx, c *core.Case) {
 	ctx.Max("max_simultaneous_ops", maxRunning)
 	if overlapping > 0 {
 		ctx.NonTrivial()
+	}
+	if len(coldFailures) > 0 {
+		ctx.Violation("result_differs(cold)", "operations run concurrently on a tree nothing had rendered yet differ from the sequential results computed afterwards: %v", coldFailures)
 	}
 	for _, f := range failures {
 		i := indexByte(f, 0)
